@@ -126,9 +126,13 @@ class T(ast.NodeTransformer):
 
     def visit_For(self, node):
         self.generic_visit(node)
-        if node.orelse or len(node.body) != 1:
+        if node.orelse or not node.body:
             return node
-        st = node.body[0]
+        *pre, st = node.body
+        # leading statements must be plain single-name assignments (loop-local temporaries)
+        for a in pre:
+            if not (isinstance(a, ast.Assign) and len(a.targets) == 1 and isinstance(a.targets[0], ast.Name)):
+                return node
         if not (isinstance(st, ast.Expr) and isinstance(st.value, ast.Call)):
             return node
         c = st.value
@@ -141,8 +145,12 @@ class T(ast.NodeTransformer):
         for n in ast.walk(c.args[0]):
             if isinstance(n, ast.Name) and isinstance(tgt, ast.Name) and n.id == tgt.id:
                 return node
+        value = c.args[0]
         try:
-            f = self._lam(node.target, c.args[0])
+            for a in reversed(pre):     # (lambda tmp: value)(expr)
+                inner = self._lam(a.targets[0], value)
+                value = ast.Call(func=inner, args=[a.value], keywords=[])
+            f = self._lam(node.target, value)
         except NotImplementedError:
             return node
         self.counts["T1"] += 1
